@@ -218,6 +218,36 @@ InvGetters  == IndexGettersExact(MF)
 InvSearch   == IndexSearchExact(Queries, MF)
 InvTyped    == WellTyped(store)
 
+(* Coherence laws of the documented meaning itself (Part 1 of TinyFlux),   *)
+(* in every reachable state: the derived answers (count / contains / get / *)
+(* select / sorted) are functions of search; a query and its negation      *)
+(* partition the filtered points; the measurement filter partitions the    *)
+(* store; removing nothing / everything.  A slip in the oracle's own       *)
+(* definitions would otherwise be judged "right" on both sides.            *)
+Nondecr(S) == \A i \in 1..(Len(S) - 1) : S[i].t <= S[i + 1].t
+IsSubSeqOf(S, s) == \E K \in SUBSET (1..Len(s)) : S = PointsAt(s, SortedPos(K))
+InvLaws ==
+  /\ \A q \in Queries, m \in MF :
+       LET U == SearchRes(store, q, m, FALSE)
+           S == SearchRes(store, q, m, TRUE) IN
+       /\ CountRes(store, q, m) = Len(U) /\ Len(S) = Len(U)
+       /\ ContainsRes(store, q, m) <=> Len(U) > 0
+       /\ GetRes(store, q, m) = IF U = <<>> THEN <<>> ELSE <<U[1]>>
+       /\ Nondecr(S) /\ IsSubSeqOf(U, store)
+       /\ \A x \in 1..Len(U) : InMeas(U[x], m)
+       /\ Len(SelectRes(store, <<[k |-> "time", key |-> 0]>>, q, m)) = Len(U)
+       /\ Sel(store, q, m) \cup Sel(store, Not(q), m) = AllPos(store, m)
+       /\ Sel(store, q, m) \cap Sel(store, Not(q), m) = {}
+       /\ Sel(store, Not(Not(q)), m) = Sel(store, q, m)
+  /\ \A m \in MF : /\ LenRes(store, m) = Len(IterRes(store, m))
+                     /\ Len(TimestampsRes(store, m)) = LenRes(store, m)
+                     /\ Len(AllRes(store, m, TRUE)) = LenRes(store, m) /\ Nondecr(AllRes(store, m, TRUE))
+                     /\ AllRes(store, m, FALSE) = IterRes(store, m)
+  /\ LenRes(store, N) = Len(store) /\ IterRes(store, N) = store
+  /\ \A m \in {x \in MF : x # N} : (LenRes(store, m) > 0) <=> (\E x \in 1..Len(MeasurementsRes(store)) : MeasurementsRes(store)[x] = m)
+  /\ RemoveStore(store, {}) = store /\ RemoveStore(store, 1..Len(store)) = <<>>
+  /\ UpdateStore(store, 1..Len(store), NoopU) = store /\ UpdateCount(store, 1..Len(store), NoopU) = 0
+
 (* the two read paths agree with the documented meaning in every state     *)
 ReadsAgree == \A q \in Queries, m \in MF : Matching(q, m) = Sel(store, q, m)
 
